@@ -33,19 +33,23 @@ def Val.toZ? : Val → Option ZAlg
   | .alg r => some r.toZ
   | _ => Option.none
 
+/-- position on the extended line: −∞ ↦ -1, finite ↦ 0, +∞ ↦ 1 -/
+def Val.rank : Val → Option Int
+  | .none => Option.none
+  | .minf => some (-1)
+  | .pinf => some 1
+  | _ => some 0
+
 /-- extended comparison: -1, 0, 1 -/
 def Val.cmp (v w : Val) : Option Int :=
-  match v, w with
-  | .none, _ | _, .none => Option.none
-  | .minf, .minf => some 0
-  | .pinf, .pinf => some 0
-  | .minf, _ => some (-1)
-  | _, .minf => some 1
-  | .pinf, _ => some 1
-  | _, .pinf => some (-1)
-  | v, w => match v.toZ?, w.toZ? with
-    | some a, some b => Alg.cmp a.a b.a
-    | _, _ => Option.none
+  match v.rank, w.rank with
+  | some rv, some rw =>
+    if rv = 0 ∧ rw = 0 then
+      match v.toZ?, w.toZ? with
+      | some a, some b => Alg.cmp a.a b.a
+      | _, _ => Option.none
+    else some (cmpI rv rw)
+  | _, _ => Option.none
 
 def Val.sgn (v : Val) : Option Int := v.cmp (.int 0)
 
